@@ -229,6 +229,10 @@ func (g *SQLGen) Select5(t *model.Table) *proto.NStmt {
 		}
 	} else {
 		k := r.Range(1, 5)
+		if r.Chance(1, 5) {
+			// more entries than the table has columns
+			k = r.Range(len(fields)+1, len(fields)+4)
+		}
 		used := map[string]bool{}
 		for i := 0; i < k; i++ {
 			it := proto.NItem{Kind: "expr"}
